@@ -243,3 +243,31 @@ pub struct BpeTrace {
     pub depth2: bool,
     pub tie_same_id: bool,
 }
+
+// ---------------------------------------------------------------------------------------
+// independent text normalisation (used where a string has no grapheme cluster that mixes
+// whitespace with other code points, i.e. where cluster-wise and code-point-wise cleaning agree)
+
+/// whitespace normal form: words joined by single spaces (C11's reference)
+pub fn clean_model(s: &str) -> String {
+    s.split_whitespace().collect::<Vec<_>>().join(" ")
+}
+
+/// 0 NFC, 1 NFD, 2 NFKC, 3 NFKD, applied to every extended grapheme cluster separately
+pub fn normalize_model(s: &str, form: u8) -> String {
+    use unicode_normalization::UnicodeNormalization;
+    use unicode_segmentation::UnicodeSegmentation;
+    s.graphemes(true)
+        .map(|c| match form {
+            0 => c.nfc().collect::<String>(),
+            1 => c.nfd().collect::<String>(),
+            2 => c.nfkc().collect::<String>(),
+            _ => c.nfkd().collect::<String>(),
+        })
+        .collect()
+}
+
+pub fn mixed_free(s: &str) -> bool {
+    use unicode_segmentation::UnicodeSegmentation;
+    s.graphemes(true).all(|u| u.chars().all(char::is_whitespace) || !u.chars().any(char::is_whitespace))
+}
